@@ -210,14 +210,12 @@ unconditionally and suppresses by the source's guard (C17 ties), and both coales
 the source's `coalesceLoop` (C18 tie) — so an edit to serf/coalesce_member.go or serf/coalesce.go
 reaches this property's obligations as well. -/
 theorem C16_coalescer_stages_are_the_source :
-    (∀ ok previous cur, SerfModel.Gen.Coalescers.memberSuppressCond.eval SerfModel.CoalesceShapes.kindOps
-        (SerfModel.CoalesceShapes.memberEnvB ok) (SerfModel.CoalesceShapes.memberEnvV previous cur) =
-        some (ok && previous == cur && cur != .update)) ∧
-    SerfModel.Gen.Coalescers.memberCoalesceLoopBody =
-      ["c.latestEvents[m.Name] = coalesceEvent{Type: e.Type, Member: &m}"] ∧
-    SerfModel.Gen.Coalescers.loopFlush = ["c.Flush(outCh)", "if !shutdown { goto INGEST }"] :=
-  ⟨SerfProofs.C17.C17_suppress_cond_tie, SerfProofs.C17.C17_coalesce_stores_unconditionally.2,
-   SerfProofs.C18.C18_loop_shape.2.2.1⟩
+    (∀ last out e, SerfModel.CoalesceShapes.runM SerfModel.Gen.Coalescers.memberFlushBody last out e =
+        some (if suppressed last e then (last, out) else (ainsert last e.name e.kind, out ++ [e]))) ∧
+    SerfModel.Gen.Coalescers.memberCoalesceBody = .act "store" .done ∧
+    SerfModel.Gen.Coalescers.loopFlush = ["p5.Flush(p1)", "if !v2 { goto INGEST }"] :=
+  ⟨SerfProofs.C17.C17_flush_body_is_source_program, SerfProofs.C17.C17_coalesce_stores_unconditionally.2,
+   SerfProofs.C18.C18_loop_shape.2.2.2.2.1⟩
 
 /-! ### Non-vacuity: a run through all four stages with coalescing, a drop and a suppression -/
 
